@@ -430,6 +430,9 @@ def want_lines_for(st, window_nominal):
             lines[-1] = 'Wc' + lines[-1]
         else:
             lines.pop()
+    elif wc == 'samelen':
+        # an edit that keeps the size of the file: one character of the want becomes another
+        lines[-1] = lines[-1][:-1] + ('X' if lines[-1][-1:] != 'X' else 'Y')
     elif wc == 'blankline':
         # replaced by the marker for an empty line: nothing the statement wrote
         lines = ['<BLANKLINE>']
@@ -685,6 +688,23 @@ def iter_doctests(world):
             for callname, doc in docs:
                 for num, dt in enumerate(doc['doctests']):
                     yield '%s::%s:%d' % (modname, callname, num), dt, mod
+
+
+def world_at(world, ops, opidx):
+    """the world as it is on disk when operation ``opidx`` runs: each 'rewrite' operation
+    before it has edited one want in place (same size, same modification time)"""
+    rw = [op for op in ops[:opidx or 0] if op['op'] == 'rewrite']
+    if not rw:
+        return world
+    import copy
+    w = copy.deepcopy(world)
+    for op in rw:
+        for dtid, dt, mod in iter_doctests(w):
+            if dtid == op['dt']:
+                for st in dt['steps']:
+                    if st['i'] == op['step_i']:
+                        st['want_corrupt'] = 'samelen'
+    return w
 
 
 def zero_arg_doctest(it):
